@@ -249,7 +249,16 @@ def _cli_pair(scratch, idx, files, main):
             if h1 != h2:
                 viol.append(("split-header-differs", "two-process header differs from embossc header"))
     else:
-        if a.stderr != fe.stderr:
+        tb = "Traceback (most recent call last)"
+        if tb in a.stderr or tb in fe.stderr:
+            # an uncaught exception (C16's finding): its traceback is not a diagnostic the compiler composes (paths of
+            # the entry script, assertion texts printing Python sets); only "both died of the same exception" is compared
+            def exc_type(t):
+                ls = [l for l in t.strip().split("\n") if l and not l.startswith(" ")]
+                return ls[-1].split(":")[0] if ls else ""
+            if (tb in a.stderr) != (tb in fe.stderr) or exc_type(a.stderr) != exc_type(fe.stderr):
+                viol.append(("split-crash-differs", "embossc: %r vs front end: %r" % (a.stderr[-200:], fe.stderr[-200:])))
+        elif a.stderr != fe.stderr:
             viol.append(("split-diag-differs", "embossc stderr %r vs front end stderr %r" % (a.stderr[-300:], fe.stderr[-300:])))
     # import dir order with identical files in both dirs
     b = run([common.PY, os.path.join(common.REPO, "embossc"), "--import-dir", "dup", "--output-path", "o2", main], "3")
@@ -261,6 +270,8 @@ def _cli_pair(scratch, idx, files, main):
             with open(os.path.join(d, o, main + ".h")) as f:
                 if f.read() != h1:
                     viol.append(("dir-order-header", "%s: header differs" % tag))
+        elif "Traceback (most recent call last)" in a.stderr + r.stderr:
+            pass  # crash text is not compared (see above)
         elif "Unable to read file" in a.stderr or "Unable to read file" in r.stderr:
             # the diagnostic for a file found in no directory lists the directories tried, in order: it legitimately
             # depends on the import path (the property is about directories holding identical files)
